@@ -2,6 +2,7 @@ import XjsModel.Props.C02
 import XjsModel.Props.C11
 import XjsModel.Props.C14
 import XjsModel.Props.C15
+import XjsModel.Proofs.LexPrintAll
 /-
   C01 — Transpilation preserves program behaviour.
 
@@ -9,7 +10,7 @@ import XjsModel.Props.C15
   determined by the script's ECMAScript parse tree, parenthesised expressions being transparent and a literal
   contributing only its value. Under it, "the output behaves like the source" reduces to "the output is a spelling of
   the same tree". The Lean theorems below are the links of that chain that are proved; the remaining links
-  (lexing the printed bytes back to the printed tokens; numeric and backtick literal values; pretty mode) are decided by the correspondence run and by the model-free behaviour
+  (positions / flags of the re-lexed tokens; numeric and backtick literal values; pretty mode) are decided by the correspondence run and by the model-free behaviour
   oracle, which RUNS source and output in a JavaScript engine in every configuration.
 
   Proved (all inputs / all trees):
@@ -18,6 +19,8 @@ import XjsModel.Props.C15
         requested (C15, C14), and compiling is a function of (configuration, tree);
     (3) every tree of the language is printed (compact mode, token level) so that the printed tokens parse back to the
         same tree without error (C03, whole programs) — so source tree = tree of the output;
+    (3b) the compact TEXT of such a tree (lexically sane tokens) is read by the lexer as exactly those printed tokens, none
+        of them after a line break or with a comment (C03 byte level, `Proofs/LexPrint*.lean`);
     (4) an error-free tree is complete and compiles in every configuration without failing (C11).
   Known findings in the oracle: nosemi-hazard (D6), trim-in-literal (D5) (restricted productions: repaired, f7f7cd3).
 -/
@@ -54,9 +57,16 @@ theorem program_round_trip (cfg : PCfg) (hc : BaseCfg cfg) (prog : SSList) (hw :
     ∃ r, parseProgram cfg (prog.toks ++ [eofTok]) = some r ∧ r.prog = prog.tree ∧ r.errors = [] ∧ r.hasErr = false :=
   Xjs.C03.printed_program_parses_back cfg hc prog hw hterm eofTok he
 
+/-- (3b): the text of the compact output lexes to the printed tokens of the tree -/
+theorem compact_text_is_the_printed_tokens (ccfg : CompCfg) (hc : ccfg.pretty = false) (prog : SSList) (hw : prog.wf = true)
+    (hterm : prog.term = true) (hs : LP.saneB prog) :
+    (lexAll (compile ccfg prog.tree).code).map LP.keyOf4 = prog.toks.map LP.quietKey ++ [LP.eofKey] :=
+  LP.compact_text_lexes4 ccfg hc prog hw hterm hs
+
 end Xjs.C01
 
 #print axioms Xjs.C01.accepted_source_is_faithfully_represented
 #print axioms Xjs.C01.compact_output_depends_on_tree_only
 #print axioms Xjs.C01.operator_core_round_trip
 #print axioms Xjs.C01.program_round_trip
+#print axioms Xjs.C01.compact_text_is_the_printed_tokens
